@@ -592,6 +592,87 @@ def install(reg):
         return VBytes(t)
     SF["rest"] = s_rest
 
+    def gap_term(p, n, pl):
+        """gap(n, pl) = (-n) mod pl for pl > 0, as an uninterpreted function with the ground facts the align proofs need:
+        0 <= gap < pl;  gap(0) = 0;  0 < n < pl => gap = pl - n;  n >= pl => gap(n) = gap(n - pl)"""
+        f = p.engine.uf("gap", I, I, I)
+        t = f(n, pl)
+        key = ("gap", z3.simplify(n).sexpr(), z3.simplify(pl).sexpr())
+        if key not in p.ghost:
+            p.ghost[key] = True
+            if p.ghost.get("gap_use_mod"):
+                p.assume(z3.Implies(pl > 0, t == (-n) % pl))      # the definition; the lines below are lemmas about it
+            p.assume(z3.Implies(pl > 0, z3.And(t >= 0, t < pl)))
+            p.assume(z3.Implies(z3.And(pl > 0, n == 0), t == 0))
+            p.assume(z3.Implies(z3.And(pl > 0, n > 0, n < pl), t == pl - n))
+            p.assume(z3.Implies(z3.And(pl > 0, n >= pl), t == f(n - pl, pl)))
+            p.assume(z3.Implies(z3.And(pl > 0, n >= 0), t == f(n + pl, pl)))
+        return t
+
+    def s_gap(p, n, pl):
+        return VInt(gap_term(p, p.as_int(n), p.as_int(pl)))
+    SF["gap"] = s_gap
+
+    def s_rest_aligned(p, paths, i, pl):
+        """declared stream of a piece-aligned torrent from file i on: each file followed by zero bytes up to the next piece boundary"""
+        fs = fs_of(p)
+        h = p.deref(paths)
+        X = p.list_seq(h)
+        it, n = p.as_int(i), p.as_int(pl)
+        f = p.engine.uf("rest_aligned", PVSEQ, DATA_SORT, I, I, BYTES)
+        t = f(X, fs.data, it, n)
+        key = ("rest_aligned", X.get_id(), fs.data.get_id(), z3.simplify(it).sexpr(), z3.simplify(n).sexpr())
+        if key not in p.ghost:
+            p.ghost[key] = True
+            d = z3.Select(fs.data, PV.sval(X[it]))
+            p.assume(z3.Implies(it >= z3.Length(X), t == z3.Empty(BYTES)))
+            p.assume(z3.Implies(z3.And(it >= 0, it < z3.Length(X)),
+                                t == z3.Concat(d, p.engine.zeros(p, gap_term(p, z3.Length(d), n)), f(X, fs.data, it + 1, n))))
+        return VBytes(t)
+    SF["rest_aligned"] = s_rest_aligned
+
+    def s_sum_lengths(p, files):
+        """sum of the 'length' fields of a v1 file list; ground unfolding over the syntactic structure of the sequence term"""
+        h = p.deref(files)
+        X = PV.items(files.t) if isinstance(files, VBox) else p.list_seq(h)
+        f = p.engine.uf("sum_lengths", PVSEQ, I)
+        lk = key_of_const("length")
+
+        def unfold(X, depth=0):
+            t = f(X)
+            Xs = z3.simplify(X)
+            if z3.is_app(Xs) and Xs.decl().kind() == z3.Z3_OP_SEQ_EMPTY:
+                p.assume(t == 0)
+            elif z3.is_app(Xs) and Xs.decl().kind() == z3.Z3_OP_SEQ_UNIT:
+                p.assume(t == PV.ival(z3.Select(PV.dmap(Xs.arg(0)), lk)))
+            elif z3.is_app(Xs) and Xs.decl().kind() == z3.Z3_OP_SEQ_CONCAT and depth < 6:
+                parts = [Xs.arg(k) for k in range(Xs.num_args())]
+                p.assume(t == z3.Sum([unfold(q, depth + 1) for q in parts]))
+            elif z3.is_app(Xs) and Xs.decl().kind() == z3.Z3_OP_ITE and depth < 6:
+                p.assume(t == z3.If(Xs.arg(0), unfold(Xs.arg(1), depth + 1), unfold(Xs.arg(2), depth + 1)))
+            return t
+        return VInt(unfold(X))
+    SF["sum_lengths"] = s_sum_lengths
+
+    def s_declared_len(p, paths, i, pl):
+        """number of bytes the first i files of a piece-aligned torrent declare: sum of (size + gap to the next boundary)"""
+        fs = fs_of(p)
+        h = p.deref(paths)
+        X = p.list_seq(h)
+        it, n = p.as_int(i), p.as_int(pl)
+        f = p.engine.uf("declared_len", PVSEQ, DATA_SORT, I, I, I)
+        t = f(X, fs.data, it, n)
+        key = ("declared_len", X.get_id(), z3.simplify(it).sexpr(), z3.simplify(n).sexpr())
+        if key not in p.ghost:
+            p.ghost[key] = True
+            p.assume(f(X, fs.data, z3.IntVal(0), n) == 0)
+            for j in (it, it - 1):
+                d = z3.Length(z3.Select(fs.data, PV.sval(X[j])))
+                p.assume(z3.Implies(z3.And(j >= 0, j < z3.Length(X)),
+                                    f(X, fs.data, j + 1, n) == f(X, fs.data, j, n) + d + gap_term(p, d, n)))
+        return VInt(t)
+    SF["declared_len"] = s_declared_len
+
     def s_path_is_file(p, paths, i):
         fs = fs_of(p)
         h = p.deref(paths)
